@@ -107,7 +107,7 @@ func parseSingleConstraint(c string) ([]*constraint, error) {
 	}
 
 	// Handle x-range (1.x, 1.2.x)
-	if (strings.Contains(c, "x") || strings.Contains(c, "X")) && isXRangeSyntax(c) {
+	if strings.ContainsAny(c, "xX*") && isXRangeSyntax(c) {
 		return parseXRange(c)
 	}
 
@@ -125,53 +125,93 @@ func parseSingleConstraint(c string) ([]*constraint, error) {
 }
 
 // isXRangeSyntax reports whether c is written with x-range syntax (digits, dots and
-// x/X placeholders, optionally after a comparator) rather than being a version whose
+// x/X/* placeholders, optionally after a comparator) rather than being a version whose
 // pre-release or build metadata merely contains the letter x (e.g. 1.0.0-next.1).
 func isXRangeSyntax(c string) bool {
 	c = strings.TrimLeft(c, "<>=!")
-	return strings.Trim(c, "0123456789.xX") == ""
+	return strings.Trim(c, "0123456789.xX*") == ""
 }
 
 // parseCaretRange handles caret ranges (^1.2.3)
 func parseCaretRange(version string) ([]*constraint, error) {
 	e := &Ecosystem{}
+	// ^1 and ^1.2 are partial versions: missing components are zero and may vary freely
+	version, precision := padPartialVersion(version)
 	v, err := e.NewVersion(version)
 	if err != nil {
 		return nil, err
 	}
 
-	// Special rules for caret ranges with zero versions
 	if v.major == 0 {
-		if v.minor == 0 {
-			// ^0.0.3 means >=0.0.3 <0.0.4 (only patch changes)
+		if precision == 1 {
+			// ^0 := >=0.0.0 <1.0.0-0
 			return []*constraint{
 				{operator: ">=", version: v.normalize()},
-				{operator: "<", version: fmt.Sprintf("0.0.%d", v.patch+1)},
+				{operator: "<", version: "1.0.0-0"},
 			}, nil
 		}
-		// ^0.2.3 means >=0.2.3 <0.3.0-0 (patch and minor changes, excludes prereleases from next minor)
+		if v.minor == 0 {
+			if precision == 2 {
+				// ^0.0 := >=0.0.0 <0.1.0-0
+				return []*constraint{
+					{operator: ">=", version: v.normalize()},
+					{operator: "<", version: "0.1.0-0"},
+				}, nil
+			}
+			// ^0.0.x := >=0.0.x <0.0.(x+1)-0
+			return []*constraint{
+				{operator: ">=", version: v.normalize()},
+				{operator: "<", version: fmt.Sprintf("0.0.%d-0", v.patch+1)},
+			}, nil
+		}
+		// ^0.x.y := >=0.x.y <0.(x+1).0-0
 		return []*constraint{
 			{operator: ">=", version: v.normalize()},
 			{operator: "<", version: fmt.Sprintf("0.%d.0-0", v.minor+1)},
 		}, nil
 	}
 
-	// ^1.2.3 means >=1.2.3 <2.0.0-0 (excludes prereleases from next major)
+	// ^x.y.z := >=x.y.z <(x+1).0.0-0
 	return []*constraint{
 		{operator: ">=", version: v.normalize()},
 		{operator: "<", version: fmt.Sprintf("%d.0.0-0", v.major+1)},
 	}, nil
 }
 
+// padPartialVersion completes a partial version (X or X.Y) with zero components and reports
+// how many components were written (3 for anything else).
+func padPartialVersion(version string) (string, int) {
+	if strings.Trim(version, "0123456789.") != "" || version == "" {
+		return version, 3
+	}
+	switch strings.Count(version, ".") {
+	case 0:
+		return version + ".0.0", 1
+	case 1:
+		return version + ".0", 2
+	}
+	return version, 3
+}
+
 // parseTildeRange handles tilde ranges (~1.2.3)
 func parseTildeRange(version string) ([]*constraint, error) {
 	e := &Ecosystem{}
+	// ~1 and ~1.2 are partial versions
+	version, precision := padPartialVersion(version)
 	v, err := e.NewVersion(version)
 	if err != nil {
 		return nil, err
 	}
 
-	// ~1.2.3 means >=1.2.3 <1.3.0-0 (excludes prereleases from next minor)
+	if precision == 1 {
+		// ~x := >=x.0.0 <(x+1).0.0-0
+		return []*constraint{
+			{operator: ">=", version: v.normalize()},
+			{operator: "<", version: fmt.Sprintf("%d.0.0-0", v.major+1)},
+		}, nil
+	}
+
+	// ~x.y.z := >=x.y.z <x.(y+1).0-0
 	return []*constraint{
 		{operator: ">=", version: v.normalize()},
 		{operator: "<", version: fmt.Sprintf("%d.%d.0-0", v.major, v.minor+1)},
@@ -191,7 +231,7 @@ func parseXRange(rangeStr string) ([]*constraint, error) {
 	}
 
 	// 1.x means >=1.0.0-0 <2.0.0-0 (includes prereleases in range, excludes prereleases from next major)
-	if len(parts) == 2 && (parts[1] == "x" || parts[1] == "X") {
+	if len(parts) == 2 && (parts[1] == "x" || parts[1] == "X" || parts[1] == "*") {
 		return []*constraint{
 			{operator: ">=", version: fmt.Sprintf("%d.0.0-0", major)},
 			{operator: "<", version: fmt.Sprintf("%d.0.0-0", major+1)},
@@ -199,7 +239,7 @@ func parseXRange(rangeStr string) ([]*constraint, error) {
 	}
 
 	// 1.2.x means >=1.2.0-0 <1.3.0-0 (includes prereleases in range, excludes prereleases from next minor)
-	if len(parts) == 3 && (parts[2] == "x" || parts[2] == "X") {
+	if len(parts) == 3 && (parts[2] == "x" || parts[2] == "X" || parts[2] == "*") {
 		minor, err := strconv.Atoi(parts[1])
 		if err != nil {
 			return nil, fmt.Errorf("invalid minor version in x-range: %s", parts[1])
